@@ -39,3 +39,27 @@ Theorem C12_leaf_nosplit_partial : forall l k lv nid,
     WF_leaf l' /\ lf_id l' = lf_id l /\ pi_modified info = lf_id l /\ pi_created info = None.
 Proof. exact leaf_put_nosplit. Qed.
 Print Assumptions C12_leaf_nosplit_partial.
+
+(** ** Exactness on version words (VersionReportProofs) *)
+From Yk Require Import VersionDefs ScanDefs VersionReportProofs.
+
+(** the borders of the old tree whose version word differs after the insert are exactly the
+    reported modified node; the borders that are new are exactly the reported created node *)
+Theorem C12_info_exact : forall root k lv ctr root' info ctr',
+  WF_layer root -> kt_wf k = true -> ~ In k (bt_keys root) ->
+  entry_ok {| sl_key := k; sl_lv := lv |} -> (forall i, In i (bt_ids root) -> i < ctr) ->
+  layer_put root k lv ctr = Some (root', info, ctr') ->
+  NoDup (leaf_ids root) /\ NoDup (leaf_ids root') /\
+  (forall i, In i (leaf_ids root) -> In i (leaf_ids root')) /\
+  (forall i, In i (leaf_ids root) -> (leaf_ver_of root' i <> leaf_ver_of root i <-> i = pi_modified info)) /\
+  (forall i v, In (i, v) (leaf_versions root) -> (In (i, v) (leaf_versions root') <-> i <> pi_modified info)) /\
+  (forall c, In c (leaf_ids root') /\ ~ In c (leaf_ids root) <-> pi_created info = Some c).
+Proof. exact c12_exact. Qed.
+Print Assumptions C12_info_exact.
+
+(** an overwrite changes no node version *)
+Theorem C12_overwrite_silent : forall root k slot x,
+  leaf_versions (update_leaf root k (fun l0 => leaf_with l0 (lf_ver l0) (lf_perm l0)
+                                               (set_nth (N.to_nat slot) x (lf_slots l0)))) = leaf_versions root.
+Proof. exact c12_overwrite_silent. Qed.
+Print Assumptions C12_overwrite_silent.
